@@ -26,6 +26,26 @@ def gen_cases(ck):
             if n % 7 == 0 or n % 64 in (55, 56, 63, 0):
                 pre = bytes(r.randrange(256) for _ in range(64))
                 cases.append(Case("hfile %d %d %s %s" % (HBUF, alg, wv.hexs(pre), wv.hexs(b)), "hfile", "file+prefix/" + cls, True))
+    # messages whose consecutive 64-byte blocks are RELATED (state kept from one block to the next - a remembered message
+    # schedule, a shortcut for repeated blocks - only shows on these): each block is a function of the previous one
+    def bswap(b, w):
+        return b"".join(b[i:i + w][::-1] for i in range(0, len(b), w))
+    fns = {"same": lambda b: b, "bswap32": lambda b: bswap(b, 4), "bswap64": lambda b: bswap(b, 8), "zero": lambda b: bytes(64), "reversed": lambda b: b[::-1],
+           "complement": lambda b: bytes(x ^ 0xFF for x in b), "rot4": lambda b: b[4:] + b[:4], "pad-like": lambda b: b"\x80" + bytes(55) + (512 * 1).to_bytes(8, "big")}
+    for rep in range(6 if big else 2):
+        for names in [[n] * 3 for n in sorted(fns)] + [r.sample(sorted(fns), 3) for _ in range(4)]:
+            blk = bytes(r.randrange(256) for _ in range(64))
+            msg = blk
+            for nm in names:
+                blk = fns[nm](blk)
+                msg += blk
+            tail = r.choice([0, 0, 1, 55, 56, 63])
+            msg += blk[:tail]
+            for alg in (0, 1, 2):
+                if r.random() < 0.5:
+                    cases.append(Case("hstr %d %s" % (alg, wv.hexs(msg)), "hstr", "string/related-blocks", True))
+                else:
+                    cases.append(Case("hfile %d %d - %s" % (HBUF, alg, wv.hexs(msg)), "hfile", "file/related-blocks", True))
     for b in (b"abc", b"", b"a" * 1000, b"\x00" * 56, b"\xff" * 119, b"\x80" * 64):
         for alg in (0, 1, 2):
             cases.append(Case("hstr %d %s" % (alg, wv.hexs(b)), "hstr", "string/fixed-vectors", True))
